@@ -25,6 +25,11 @@ def run(ctx):
     tables(ctx, P)
     embedding(ctx, P)
     v3_key_id_right_aligned(ctx, P)
+    fingerprint_variant_per_version(ctx, P)
+    # a recipient field that does not parse must not silently become "no recipient" (the wildcard that matches every key): no error
+    # is dropped while the identifiers of ESK packets are read (R-err of C09 restricted to those parsers)
+    from rules import stream
+    stream.r_err(ctx, P, only=r'packet::(public_key_encrypted_session_key|sym_key_encrypted_session_key)::|types::(pkesk|fingerprint|key_id)::', floor=250)
 
 
 def forwarders(ctx, P):
@@ -158,6 +163,30 @@ def v3_key_id_right_aligned(ctx, P):
     ctx.check(P + ':S13-2:v3-key-id-right-aligned', 'R-table', 'in the v2/v3 arm the octets of the modulus are copied into a suffix of the 8-octet key id (low 64 bits, zero-padded on the left)',
               n >= 1 and not bad, function=b.path, site=bad[0][0] if bad else None, count=n,
               missing=None if (n >= 1 and not bad) else ('destination is a %s slice of the id: a modulus shorter than 8 octets is padded on the wrong side' % bad[0][1] if bad else 'copies into the v3 key id not found'))
+
+
+def fingerprint_variant_per_version(ctx, P):
+    """A fingerprint value names the version of the key it belongs to (`Fingerprint::V2` .. `V6`; `version()`, equality and hashing
+    look at it).  In `fingerprint()`, with the key version fixed to X (partial evaluation of the version switch), the only Fingerprint
+    variant that can be constructed is X."""
+    from rules.c05 import edges_pruned_for_version
+    b = ctx.body('<packet::key::public::PubKeyInner as types::key_traits::KeyDetails>::fingerprint')
+    if b is None:
+        ctx.missing(P + ':S13-1:fingerprint-variant-per-version', 'PubKeyInner::fingerprint not found')
+        return
+    table = {}
+    for v in ('V2', 'V3', 'V4', 'V6'):
+        reach = b.reach_from([0], removed_edges=frozenset(edges_pruned_for_version(b, v, r'^param:\d+$|field:.*\.version$')))
+        made = set()
+        for x in reach:
+            for st in b.blocks[x]['s']:
+                if st['r']['k'] == 'agg' and st['r'].get('ak') == 'adt' and (st['r'].get('adt') or '').endswith('fingerprint::Fingerprint'):
+                    made.add(st['r'].get('v'))
+        table[v] = sorted(made)
+    bad = {v: m for v, m in table.items() if m != [v]}
+    ctx.check(P + ':S13-1:fingerprint-variant-per-version', 'R-table', 'fingerprint() of a version X key constructs Fingerprint::X and nothing else (X = 2, 3, 4, 6)',
+              not bad, function=b.path, table=table,
+              missing=None if not bad else 'fingerprint variant(s) per key version: %s - the value reports another key version than the key has, lookups by (version, digest) miss' % bad)
 
 
 SIGNERS = r'SignatureConfig::sign(_[a-z_]+)?$|SignatureHasher::sign$'
